@@ -22,8 +22,18 @@ def main (args : List String) : IO UInt32 := do
     | some idx =>
       let names := env.header.moduleData[idx.toNat]!.constNames
       for n in names do
-        if n.isInternal || !(m.isPrefixOf n) then continue
+        if n.isInternal then continue
+        let isInst := match n with | .str _ s => s.endsWith "_at_source" | _ => false
         match env.find? n with
+        | some (.defnInfo _) =>
+          -- an instantiation `def x_at_source := <proof term>` in a Tie module is a proof obligation too
+          if isInst then
+            let (axs, _) ← (Lean.collectAxioms n : CoreM _).toIO { fileName := "", fileMap := default } { env := env }
+            let bad := axs.toList.filter (fun a => !allowed.contains a)
+            total := total + 1
+            if bad.isEmpty then clean := clean + 1
+            let s := if axs.isEmpty then "-" else ",".intercalate (axs.toList.map toString)
+            IO.println s!"THEOREM {n} AXIOMS {s}{if bad.isEmpty then "" else " BAD"}"
         | some (.thmInfo _) =>
           let (axs, _) ← (Lean.collectAxioms n : CoreM _).toIO { fileName := "", fileMap := default } { env := env }
           let bad := axs.toList.filter (fun a => !allowed.contains a)
